@@ -1,6 +1,7 @@
 import LexVerif.Proof.ParseIntFormatGrammar
 import LexVerif.Proof.ParseIntFormatTotal
 import LexVerif.Proof.ParseIntFormatAgree
+import LexVerif.Proof.ParseIntFormatGrammar2
 import LexVerif.Props.C04
 import LexVerif.Props.C11Int
 import LexVerif.Model.Ops.ParseInt
@@ -25,11 +26,15 @@ C12-no-digits-accepted-as-zero).
 
 * (a) `parseIntFormat_plain_eq` / `parseIntFormat_plain_eq_spec`: on plain formats the `format` build computes exactly
   what the non-`format` build computes, hence the specification scan of C04 — C04 holds for `format` builds.
-* (b) `parseIntFormat_total_partial` (C10, release): never FAULT / PANIC, indices ≤ length; `parseIntFormat_total_full`
-  (every valid format) is the full statement; debug build: `debug_panics_suffix_separator` ("1h_").
-* (c) `int_accepts_iff_grammar_partial` (C12): the complete parser accepts iff `Spec.grammarIntComplete` derives the
-  input, with the same value; `int_accepts_iff_grammar_full` is FALSE (`not_int_accepts_iff_grammar_full`).
-* (d) `int_format_complete_iff_partial_partial` (C11 clause 1); regression I2, witnesses I3, I4.
+* (b) `parseIntFormat_total` (C10, release, every valid format): never FAULT / PANIC, indices ≤ length
+  (`parseIntFormat_total_full_holds`); debug build: `debug_panics_suffix_separator` ("1h_").
+* (c) `int_accepts_iff_grammar_prefix` (C12): contiguous integer iterator, no base suffix, base prefix /
+  `no_integer_leading_zeros` / sign flags arbitrary, digits required: the complete parser accepts iff
+  `Spec.grammarIntComplete` derives the input, with the same value (`int_accepts_iff_grammar_partial`: the sub-class
+  without prefix / leading-zero flag); with a base suffix: `int_accepts_iff_grammar_contig_full` (a `def`, exact exclusions);
+  `int_accepts_iff_grammar_full` is FALSE (`not_int_accepts_iff_grammar_full`).
+* (d) `int_format_complete_iff_partial` (C11 clause 1): EVERY valid format; regression I2, witnesses I3, I4 (clause 2).
+* (b) is `parseIntFormat_total`: EVERY valid format.
 -/
 namespace LexVerif.Props.C04Format
 open LexVerif LexVerif.Spec LexVerif.Model LexVerif.Model.ParseIntFormat LexVerif.Proof.PIF
@@ -262,6 +267,145 @@ theorem int_accepts_iff_grammar_partial (c : Cfg) (t : IntTy) (nm : Bool) (hs : 
     obtain ⟨k, hk⟩ := hgate.2 hok
     rw [hk]
     simp [err, Except.map]
+
+/-- the sign split of the grammar is the sign the parser consumes -/
+theorem splitIntSign_eq (t : IntTy) (s : List Nat) :
+    (splitIntSign t.signed s).2 = s.drop (signLen t s) ∧
+    ((splitIntSign t.signed s).1 == some true) = decide (s.head? = some 45 ∧ t.signed = true) := by
+  cases s with
+  | nil => simp [splitIntSign, signLen, hasSign]
+  | cons x xs =>
+    by_cases h43 : x = 43
+    · subst h43; simp [splitIntSign, signLen, hasSign]
+    · by_cases h45 : x = 45
+      · subst h45
+        by_cases hsg : t.signed = true
+        · simp [splitIntSign, signLen, hasSign, hsg]
+        · simp [splitIntSign, signLen, hasSign, hsg]
+      · have : splitIntSign t.signed (x :: xs) = (none, x :: xs) := by
+          unfold splitIntSign; split <;> simp_all
+        simp [this, signLen, hasSign, h43, h45]
+
+/-- **(c) with base prefix and `no_integer_leading_zeros`**: formats with a contiguous integer iterator (no integer
+separator flags; separator byte and the other components' flags arbitrary) and WITHOUT base suffix; base prefix (not
+the byte `'0'` — `format.is_valid()` rejects digit prefixes), its case flag, `no_integer_leading_zeros`, the sign flags:
+arbitrary; digits required. For every type, radix, `no_multi_digit` and input the complete parser returns `Ok(v)` iff
+`Spec.grammarIntComplete` derives the input with value `v` — NO exclusion: without a base suffix the integer parser
+has no prefix / leading-zero defect (C12-base-prefix-swallows-leading-zero needs the suffix, see
+`witness_prefix_swallows_zero`, `witness_suffix_nolz_zero`). -/
+theorem int_accepts_iff_grammar_prefix (c : Cfg) (t : IntTy) (nm : Bool) (hs : Simple c)
+    (ha : Admissible ⟨c, t, false, nm⟩) (h48 : c.fmt.basePrefix ≠ 48)
+    (hreq : (c.fmt.requiredIntegerDigits || c.fmt.requiredMantissaDigits) = true)
+    (s : List Nat) (hb : ∀ b ∈ s, b < 256) (v : Int) :
+    complete c t nm s = .ok v ↔ grammarIntComplete c.feats c.fmt t s = .ok v := by
+  have hrd : (⟨c, t, false, nm⟩ : Env).requiredDigits = true := by rw [requiredDigits_eq c t false nm hs.hf]; exact hreq
+  have hsl : signLen t s ≤ s.length := by
+    unfold signLen hasSign; cases s <;> simp; split <;> omega
+  have hcomp : ∀ r : Res, ((r.map Prod.fst : Except Err Int) = .ok v) ↔ ∃ k, r = .ok (v, k) := by
+    intro r; cases r with
+    | error x => simp [Except.map]
+    | ok p => obtain ⟨w, k⟩ := p; simp [Except.map]
+  unfold complete
+  rw [hcomp, parseIntFormat_prefix_eq _ hs]
+  simp only [hrd, if_true]
+  unfold grammarIntComplete grammarIntSyn
+  have hy : (Syn.of c.feats c.fmt).radix = c.fmt.mantissaRadix ∧ (Syn.of c.feats c.fmt).pre = c.fmt.basePrefix ∧
+      (Syn.of c.feats c.fmt).suf = 0 ∧ (Syn.of c.feats c.fmt).csPrefix = c.fmt.caseSensitiveBasePrefix ∧
+      (Syn.of c.feats c.fmt).noIntLZ = c.fmt.noIntegerLeadingZeros ∧
+      (Syn.of c.feats c.fmt).noPosMant = c.fmt.noPositiveMantissaSign ∧
+      (Syn.of c.feats c.fmt).reqMantSign = c.fmt.requiredMantissaSign ∧
+      ((Syn.of c.feats c.fmt).reqInt || (Syn.of c.feats c.fmt).reqMant) = true := by
+    simp [Syn.of, hs.hf, hs.suf, hreq]
+  obtain ⟨hy1, hy2, hy3, hy4, hy5, hy6, hy7, hy8⟩ := hy
+  have hr2 : 2 ≤ c.fmt.mantissaRadix := by have := ha.r2; simpa [Env.radix, Cfg.mantissaRadix] using this
+  have hcs : c.caseSensitiveBasePrefix = c.fmt.caseSensitiveBasePrefix := by simp [Cfg.caseSensitiveBasePrefix, Cfg.flag, hs.hf]
+  by_cases hemp : s = []
+  · subst hemp
+    simp only [List.isEmpty_nil, if_true, signLen, hasSign, List.head?_nil, List.length_nil]
+    constructor
+    · rintro ⟨k, hk⟩
+      simp only [signGate, List.head?_nil, reduceCtorEq, false_and, if_false] at hk
+      split at hk <;> simp [err] at hk
+    · intro h; cases h
+  · have hne : s.isEmpty = false := by simpa using hemp
+    simp only [hne, Bool.false_eq_true, if_false]
+    obtain ⟨hbody, hnegeq⟩ := splitIntSign_eq t s
+    generalize hsp : splitIntSign t.signed s = sp at hbody hnegeq
+    obtain ⟨sign, body⟩ := sp
+    simp only at hbody hnegeq ⊢
+    have hgate := signGate_iff_signOk ⟨c, t, false, nm⟩ s
+    rw [hsp] at hgate
+    simp only at hgate
+    by_cases hbe : body = []
+    · -- only a sign byte: `Empty`; the grammar has no digits
+      have hlen : signLen t s = s.length := by
+        have := congrArg List.length hbody; rw [hbe] at this
+        simp only [List.length_nil, List.length_drop] at this; omega
+      subst hbe
+      simp only [hlen, if_true]
+      constructor
+      · rintro ⟨k, hk⟩
+        simp only [signGate] at hk
+        split at hk
+        · simp [err] at hk
+        · split at hk <;> simp [err] at hk
+      · intro h
+        simp [splitPrefix, takeDigits, splitSuffix, hy8] at h
+    · have hlen : signLen t s ≠ s.length := by
+        intro h; apply hbe; rw [hbody, h]; simp
+      have hlt : signLen t s < s.length := by omega
+      simp only [hlen, if_false]
+      have hg := grammar_accept (Syn.of c.feats c.fmt) t (by rw [hy1]; omega) hy3 (by rw [hy2]; exact h48) hy8 sign body hbe
+        (decide (s.head? = some 45 ∧ t.signed = true)) hnegeq.symm (by simp) v
+      rw [hg, hy1, hy2, hy4, hy5, hy6, hy7]
+      cases hok : signOk c.fmt.noPositiveMantissaSign c.fmt.requiredMantissaSign sign with
+      | true =>
+        rw [(hgate _).1 hok]
+        simp only [true_and]
+        have := afterSign_accept ⟨c, t, false, nm⟩ rfl ha.ty ha.r2 ha.r36 ha.feat
+          (decide (s.head? = some 45 ∧ t.signed = true)) (by simp) s hb (signLen t s) hlt v
+        simp only [Env.radix, Cfg.mantissaRadix, hcs] at this
+        rw [this, hbody]
+      | false =>
+        obtain ⟨k, hk⟩ := (hgate _).2 hok
+        rw [hk]
+        simp [err]
+
+def fmtPrefixXNoLZ : Format := ⟨0x1010100078000000000000000000100c⟩   -- radix 16, prefix `x`, no_integer_leading_zeros
+
+theorem prefixXNoLZ_simple : Simple ⟨featsRF, fmtPrefixXNoLZ, false⟩ := ⟨rfl, rfl, by decide, by decide⟩
+
+/-- non-vacuity of `int_accepts_iff_grammar_prefix`: `0x1f` = 31, `0x01` = 1 (leading zeros behind a prefix are
+exempt), `01` rejected by both (`InvalidLeadingZeros`), `0` = 0, `0x` rejected by both -/
+example :
+    complete ⟨featsRF, fmtPrefixXNoLZ, false⟩ ⟨32, true⟩ false [0x30, 0x78, 0x31, 0x66] = .ok 31 ∧
+    grammarIntComplete featsRF fmtPrefixXNoLZ ⟨32, true⟩ [0x30, 0x78, 0x31, 0x66] = .ok 31 ∧
+    complete ⟨featsRF, fmtPrefixXNoLZ, false⟩ ⟨32, true⟩ false [0x30, 0x78, 0x30, 0x31] = .ok 1 ∧
+    grammarIntComplete featsRF fmtPrefixXNoLZ ⟨32, true⟩ [0x30, 0x78, 0x30, 0x31] = .ok 1 ∧
+    complete ⟨featsRF, fmtPrefixXNoLZ, false⟩ ⟨32, true⟩ false [0x30, 0x31] = .error (.err "InvalidLeadingZeros" 0) ∧
+    grammarIntComplete featsRF fmtPrefixXNoLZ ⟨32, true⟩ [0x30, 0x31] = .err ∧
+    complete ⟨featsRF, fmtPrefixXNoLZ, false⟩ ⟨32, true⟩ false [0x30] = .ok 0 ∧
+    grammarIntComplete featsRF fmtPrefixXNoLZ ⟨32, true⟩ [0x30] = .ok 0 ∧
+    complete ⟨featsRF, fmtPrefixXNoLZ, false⟩ ⟨32, true⟩ false [0x30, 0x78] = .error (.err "Empty" 2) ∧
+    grammarIntComplete featsRF fmtPrefixXNoLZ ⟨32, true⟩ [0x30, 0x78] = .err := by decide
+
+/-- the body (input behind the sign) is one or more `0` followed by a base-suffix byte: the class of the open findings
+C12-base-prefix-swallows-leading-zero (integers) and "zero before the base suffix under no_integer_leading_zeros" -/
+def zerosThenSuffix (c : Cfg) (t : IntTy) (s : List Nat) : Prop :=
+  ∃ k h, 1 ≤ k ∧ isSuffixByte c h = true ∧ s.drop (signLen t s) = List.replicate k 48 ++ [h]
+
+/-- **C12 for a contiguous integer iterator WITH base suffix, full statement under the exact exclusions** (not proved;
+holds on every op of the correspondence streams): the complete parser accepts exactly the grammar unless digits are
+not required (C12-no-digits-accepted-as-zero) or a base prefix / `no_integer_leading_zeros` is combined with a base
+suffix and the body is zeros followed by the suffix (`witness_prefix_swallows_zero`, `witness_suffix_nolz_zero`).
+The suffix-free half is `int_accepts_iff_grammar_prefix`. -/
+def int_accepts_iff_grammar_contig_full : Prop :=
+  ∀ (c : Cfg) (t : IntTy) (nm : Bool) (s : List Nat) (v : Int), c.feats.format = true → c.debug = false →
+    (formatError c.feats c.fmt).isNone = true → c.sepFlags .integer = SepFlags.none →
+    Admissible ⟨c, t, false, nm⟩ → (∀ b ∈ s, b < 256) →
+    (c.fmt.requiredIntegerDigits || c.fmt.requiredMantissaDigits) = true →
+    ¬ (c.fmt.baseSuffix ≠ 0 ∧ (c.fmt.basePrefix ≠ 0 ∨ c.fmt.noIntegerLeadingZeros = true) ∧ zerosThenSuffix c t s) →
+      (complete c t nm s = .ok v ↔ grammarIntComplete c.feats c.fmt t s = .ok v)
 
 def fmtPrefixDSuffixH : Format := ⟨0xa0a0a6864000000000000000000000c⟩  -- radix 10, prefix `d`, suffix `h`
 def fmtNoReq : Format := ⟨0xa0a0a00000000000000000000000000⟩        -- radix 10, no digits required (int_noreq)
